@@ -1,6 +1,7 @@
 (* C03 / C19 model: single-child slots
      autobean_refactor/models/internal/fields.py : optional_left_field / optional_right_field
-                                                   (_create_node, _remove_node)
+                                                   (_create_node, _remove_node, _touches) -- as repaired by
+                                                   /verif/fixes/optional-remove-keeps-separator-when-glued.patch
      autobean_refactor/models/internal/properties.py : replace_node, required_node_property.__set__,
                                                        optional_node_property.__set__
    over the same abstract store as Repeated.v.  No proofs here. *)
@@ -28,7 +29,25 @@ Definition create_node (d : doc) (pivot : Z) (v : donor) (fr : Z) : doc * list d
       end
   end.
 
-(* optional_{left,right}_field._remove_node(token_store, pivot, current) *)
+(* _touches(token, step, end): walk from `token` (excluded) by `step`, skip the tokens without text; the nearest
+   token with text shows, at its end 0 / -1, a character other than a blank or a bracket (" \t\r\n{}()").
+   `l` = the tokens step reaches, nearest first (the tokens after `token` for get_next, those before it in
+   reverse order for get_prev); `first_char` = (end == 0). *)
+Definition self_delimiting (c : Z) : bool :=
+  (c =? 32) || (c =? 9) || (c =? 13) || (c =? 10) || (c =? 123) || (c =? 125) || (c =? 40) || (c =? 41).
+Fixpoint touches (first_char : bool) (l : list tok) : bool :=
+  match l with
+  | [] => false                                   (* neighbor is None *)
+  | t :: r =>
+      match ttext t with
+      | [] => touches first_char r                (* `not neighbor.raw_text`: step on *)
+      | c :: s => negb (self_delimiting (if first_char then c else last s c))
+      end
+  end.
+
+(* optional_{left,right}_field._remove_node(token_store, pivot, current): the separators between the pivot and
+   the child stay when there are some (`first is not current.first_token`) and the child touches what lies on
+   its other side *)
 Definition remove_node (d : doc) (pivot : Z) (cur : item) : doc * res unit :=
   match sd with
   | SLeft =>
@@ -36,14 +55,24 @@ Definition remove_node (d : doc) (pivot : Z) (cur : item) : doc * res unit :=
       | Err e => (d, Err e)
       | Ok None => (d, Err AssertionError)
       | Ok (Some first) =>
-          match st_remove first (snd cur) d with Ok d' => (d', Ok tt) | Err e => (d, Err e) end
+          let rm (f : Z) := match st_remove f (snd cur) d with Ok d' => (d', Ok tt) | Err e => (d, Err e) end in
+          if first =? fst cur then rm first
+          else match split_at (snd cur) d with
+               | None => (d, Err ValueError)            (* token_store.get_next(current.last_token) *)
+               | Some (_, _, after) => rm (if touches true after then fst cur else first)
+               end
       end
   | SRight =>
       match st_get_prev pivot d with
       | Err e => (d, Err e)
       | Ok None => (d, Err AssertionError)
       | Ok (Some last) =>
-          match st_remove (fst cur) last d with Ok d' => (d', Ok tt) | Err e => (d, Err e) end
+          let rm (l : Z) := match st_remove (fst cur) l d with Ok d' => (d', Ok tt) | Err e => (d, Err e) end in
+          if last =? snd cur then rm last
+          else match split_at (fst cur) d with
+               | None => (d, Err ValueError)            (* token_store.get_prev(current.first_token) *)
+               | Some (before, _, _) => rm (if touches false (rev before) then snd cur else last)
+               end
       end
   end.
 End Slot.
